@@ -208,11 +208,17 @@ func main() {
 	defer cleanupScratch()
 	switch os.Args[1] {
 	case "check":
-		os.Exit(cmdCheck(os.Args[2:]))
+		rc := cmdCheck(os.Args[2:])
+		cleanupScratch() // os.Exit does not run deferred calls
+		os.Exit(rc)
 	case "verify":
-		os.Exit(cmdVerify(os.Args[2:]))
+		rc := cmdVerify(os.Args[2:])
+		cleanupScratch() // os.Exit does not run deferred calls
+		os.Exit(rc)
 	case "list":
-		os.Exit(cmdList(os.Args[2:]))
+		rc := cmdList(os.Args[2:])
+		cleanupScratch() // os.Exit does not run deferred calls
+		os.Exit(rc)
 	default:
 		fmt.Fprintln(os.Stderr, "unknown command", os.Args[1])
 		os.Exit(2)
